@@ -11,7 +11,7 @@ NPROC = os.cpu_count() or 8
 WRAPS = "-Wl,--wrap=malloc,--wrap=realloc,--wrap=free,--wrap=calloc,--wrap=clock_gettime,--wrap=getrandom"
 CFG = {
     # configuration -> (compiler, flags)
-    "san": ("gcc", ["-std=gnu17", "-g", "-O1", "-fsanitize=address,undefined", "-fno-sanitize-recover=all",
+    "san": ("gcc", ["-std=gnu17", "-g", "-O1", "-fsanitize=address,undefined", "-fno-sanitize=nonnull-attribute", "-fno-sanitize-recover=all",
                     "-fno-omit-frame-pointer"]),
     "ship": ("gcc", ["-std=gnu17", "-O2", "-fstack-protector-strong", "-D_FORTIFY_SOURCE=2"]),
     "dbg": ("gcc", ["-std=gnu17", "-g", "-O0"]),
